@@ -354,6 +354,35 @@ func runNoIn(r *engine.Run) {
 	h.finish("noin")
 }
 
+// runSpellings: C03's spelling lattice from the reject side: a string or
+// numeric spelling of get / set / a label / a flag is not the contextual word.
+func runSpellings(r *engine.Run) {
+	h := newHarness(r, 64)
+	c03.SpellingTexts(func(key, src string) {
+		if mine(r, key) {
+			h.one(key, src)
+		}
+	})
+	h.finish("spellings")
+}
+
+// runComments: comment contents (including source-map directives) keep
+// parsing total: a tree, or an error list with positions inside the input.
+func runComments(r *engine.Run) {
+	h := newHarness(r, 256)
+	max := 4
+	if r.Thorough() {
+		max = 5
+	}
+	c03.CommentTexts(max, func(key, src string) {
+		if mine(r, key) {
+			h.one(key, src)
+		}
+	})
+	r.Bound("pieces", fmt.Sprint(max))
+	h.finish("comments")
+}
+
 // runLiterals: numeric and string literal spellings, valid or not.
 func runLiterals(r *engine.Run) {
 	h := newHarness(r, 256)
